@@ -256,6 +256,14 @@ def validation_rules(ctx, cg):
         ctx.check(guarded, "V3", "forward-route-has-a-server", ctx.where(b, s["sp"]),
                   "the router uses the first server of a forward route for every matching query: the route must be built only on the "
                   "edge where the server list is not empty")
+        # ... and the list that was tested is the list that is stored: nothing drops servers between the test and the route
+        Tb = terms(P, b)
+        v = norm(Tb.rvalue(s["rv"], bb, idx))
+        steps = [str(y[1]).rsplit("::", 1)[-1] for y in subterms(v) if y[0] == "call" and isinstance(y[1], str) and "iter" in str(y[1]).lower()]
+        drops = sorted({x for x in steps if x in ("filter", "filter_map", "take", "skip", "step_by", "take_while", "skip_while", "flat_map", "flatten", "zip", "dedup")})
+        ctx.check(not drops, "V3", "forward-route-stores-the-tested-list", ctx.where(b, s["sp"]),
+                  "between the non-empty test and Handler::Forward the server list passes through %s: the stored list can be empty although the "
+                  "tested one was not" % (drops or "-"))
     if ctx.config in ("default", "dns"):
         ctx.floor("V3", "forward route constructions", n, 1)
     # ---------------- V4: the DHCP reply is framed only under a size guard
